@@ -224,6 +224,11 @@ def observe(P, order):
     attr = as_H(np.asarray(P.A, dtype=float), order)
     if not (np.array_equal(props, arr) and np.array_equal(props, attr)):
         raise ViewsDisagree("properties %s, buffer %s, .A %s" % (props, arr, attr))
+    # the product matrices of the live object are matrices of the same quaternion: L(q) 1 = q = R(q) 1
+    one = np.array([1.0, 0.0, 0.0, 0.0])
+    Lq, Rq = np.asarray(P.mult_L(), dtype=float) @ one, np.asarray(P.mult_R(), dtype=float) @ one
+    if not (np.array_equal(Lq, props) and np.array_equal(Rq, props)):
+        raise ViewsDisagree("properties %s, mult_L().1 %s, mult_R().1 %s" % (props, Lq, Rq))
     return props
 
 
@@ -243,9 +248,14 @@ def record_traces(seed, n, length, devs):
         acts = []
         try:
             for k in range(length):
-                choice = int(r.integers(8))
+                choice = int(r.integers(9))
                 ev = {"route": "none"}
-                if choice <= 1:
+                if choice == 8:
+                    v = gens[r.integers(len(gens))]
+                    P[:] = np.array(v, dtype=float) if order == "H" else np.roll(np.array(v, dtype=float), -1)      # element write through the array interface
+                    den = 1
+                    ev.update(act="Overwrite", v=list(v))
+                elif choice <= 1:
                     v = gens[r.integers(len(gens))]
                     route = ROUTES[r.integers(len(ROUTES))]
                     out = live_prod(route, P, order, v, "R" if choice == 0 else "L")
